@@ -44,6 +44,53 @@ func smHolds(sm *networking.StringMatch, v string) bool {
 	return true
 }
 
+// claimKey: `@request.auth.claims.a.b` / `@request.auth.claims[a][b]` -> "a.b".
+func claimKey(name string) (string, bool) {
+	const pre = "@request.auth.claims"
+	if !strings.HasPrefix(strings.ToLower(name), pre) {
+		return "", false
+	}
+	rest := name[len(pre):]
+	switch {
+	case strings.HasPrefix(rest, ".") && len(rest) > 1:
+		return rest[1:], true
+	case strings.HasPrefix(rest, "[") && strings.HasSuffix(rest, "]") && len(rest) > 2:
+		return strings.Join(strings.Split(rest[1:len(rest)-1], "]["), "."), true
+	}
+	return "", false
+}
+
+// entryHolds: a `headers` entry - a verified JWT claim (present, one of its values matches) or an ordinary header.
+func (s *state) entryHolds(n string, sm *networking.StringMatch, r request, without bool) bool {
+	if k, ok := claimKey(n); ok {
+		vals, _ := r.claim(k)
+		for _, v := range vals {
+			if smValue(sm, v) {
+				return true
+			}
+		}
+		return false
+	}
+	v, ok := r.header(n)
+	if !ok && without && s.f1Variant && !presenceOnly(sm) {
+		v, ok = "", true // classification only: what the generated matcher does (F-C12-1)
+	}
+	return ok && smHolds(sm, v)
+}
+
+// smValue: plain value test (no presence conversion: claim matchers are built by ConvertToEnvoyMatch only).
+func smValue(sm *networking.StringMatch, v string) bool {
+	switch m := sm.GetMatchType().(type) {
+	case *networking.StringMatch_Exact:
+		return v == m.Exact
+	case *networking.StringMatch_Prefix:
+		return strings.HasPrefix(v, m.Prefix)
+	case *networking.StringMatch_Regex:
+		return fullMatch(m.Regex, v)
+	}
+	return true
+}
+
 func (s *state) sem() string {
 	return s.cfg.Annotations[constants.InternalRouteSemantics]
 }
@@ -79,17 +126,12 @@ func (s *state) matchHolds(m *networking.HTTPMatchRequest, r request) bool {
 		return false
 	}
 	for n, sm := range m.Headers {
-		v, ok := r.header(n)
-		if !ok || !smHolds(sm, v) {
+		if !s.entryHolds(n, sm, r, false) {
 			return false
 		}
 	}
 	for n, sm := range m.WithoutHeaders {
-		v, ok := r.header(n)
-		if !ok && s.f1Variant && !presenceOnly(sm) {
-			v, ok = "", true // classification only: what the generated matcher does (F-C12-1)
-		}
-		if ok && smHolds(sm, v) {
+		if s.entryHolds(n, sm, r, true) {
 			return false
 		}
 	}
